@@ -556,3 +556,21 @@ pub fn replay_c06(_sub: &str, case: &Value) -> Option<CheckResult> {
 
 #[allow(dead_code)]
 fn _unused(_: StructuredShortMessage, _: Foreign, _: ForeignTuple, _: U7, _: ShortMessageType) {}
+
+/// C04: every restricted-integer value reachable through the accessors of a message built by the
+/// named constructor `c` (argument index `i`) in implementation M lies within its range.
+fn named_range_impl<M: Impl>(c: usize, i: u64) -> CheckResult {
+    let m: M = named_build(c, i);
+    let o = crate::p_short::observe(&m);
+    crate::p_short::in_range_obs(&o).map_err(|f| Fail { sig: format!("produced_out_of_range/factory/{}/{}", NAMED[c], IMPL_NAMES[M::IDX as usize]), detail: f.detail })?;
+    let so = crate::p_short::observe(&o.structured);
+    crate::p_short::in_range_obs(&so).map_err(|f| Fail { sig: format!("produced_out_of_range/factory/{}/{}/to_structured", NAMED[c], IMPL_NAMES[M::IDX as usize]), detail: f.detail })?;
+    Ok(true)
+}
+
+pub fn named_range(c: usize, i: u64) -> CheckResult {
+    for k in 0..4u8 {
+        for_impl!(k, named_range_impl(c, i))?;
+    }
+    Ok(true)
+}
